@@ -150,10 +150,19 @@ func coord3Key(collide, negzero bool) (func(class, rep int) model3d.Coord3D, fun
 	if collide {
 		cs[0], cs[1] = model3d.XYZ(1e20, 1, 0), model3d.XYZ(1e20, 0, 0)
 	}
+	if negzero {
+		// a key with a denormal component between two zeros: the zeros come in both signs, and the products of the
+		// hash underflow to a zero of either sign
+		cs[3] = model3d.XYZ(0, -5e-324, 0)
+	}
 	key := func(class, rep int) model3d.Coord3D {
 		if class == 3 && negzero && rep%2 == 1 {
 			z := axisVal(0, false, true)
 			return model3d.XYZ(z, z, z)
+		}
+		if class == 4 && negzero && rep%2 == 1 {
+			z := axisVal(0, false, true)
+			return model3d.XYZ(z, -5e-324, z)
 		}
 		return cs[class-1]
 	}
